@@ -479,15 +479,30 @@ pub fn check_all(obs: &Obs, out: &mut CaseOut) -> Summary {
                                             KS::Absent => "key-missing",
                                             KS::Val(_) => "key-stale",
                                         };
-                                        // Did this remote hold (or had it asked for) a link when it sent the sync request?
-                                        // (decided on its own requests: the last link/sync/unlink request
-                                        // before this sync request; frames lag behind requests)
-                                        let linked_at_request = lf
-                                            .reqs
-                                            .iter()
-                                            .filter(|r| r.t0 < t_q && matches!(r.kind, ReqKind::Link | ReqKind::Sync | ReqKind::Unlink))
-                                            .last()
-                                            .map_or(false, |r| r.kind != ReqKind::Unlink);
+                                        // Did this remote hold a link when it sent the sync request? Decided on its own
+                                        // requests (frames lag behind requests): an explicit link request is handled
+                                        // before the sync request; an earlier sync request links the remote only when
+                                        // its first answer is written, so unless `linked` had been received it is not
+                                        // known whether the link existed ("pending-sync").
+                                        let last_req = lf.reqs.iter().filter(|r| r.t0 < t_q && matches!(r.kind, ReqKind::Link | ReqKind::Sync | ReqKind::Unlink)).last();
+                                        let open_by_frames = lf.frames.iter().filter(|x| x.ticket < t_q && matches!(x.kind, FrameKind::Linked | FrameKind::Unlinked)).last().map_or(false, |x| x.kind == FrameKind::Linked);
+                                        let mut linked_at_request = match last_req.map(|r| &r.kind) {
+                                            Some(&ReqKind::Link) => "true",
+                                            Some(&ReqKind::Sync) if open_by_frames => "true",
+                                            Some(&ReqKind::Sync) => "pending-sync",
+                                            _ => "false",
+                                        }
+                                        .to_string();
+                                        // An earlier sync of this remote that it abandoned by unlinking before `synced`
+                                        // arrived: what is left of that answer is delivered into the link this sync opens.
+                                        let abandoned = lf.reqs.iter().any(|r| {
+                                            r.kind == ReqKind::Sync
+                                                && r.t0 < t_q
+                                                && lf.reqs.iter().any(|u| u.kind == ReqKind::Unlink && u.t0 > r.t0 && u.t0 < t_q && !lf.frames.iter().any(|x| x.kind == FrameKind::Synced && x.ticket > r.t0 && x.ticket < u.t0))
+                                        });
+                                        if abandoned && class == "key-stale" {
+                                            linked_at_request.push_str("/after-abandoned-sync");
+                                        }
                                         out.violation(
                                             "C03",
                                             format!("snapshot-outside-window/map/{class}/linked-at-request={linked_at_request}"),
